@@ -44,8 +44,8 @@ def plan(ctx, tier, seed):
             parts = (0, 1, 2) if (tier == "thorough" or sb == (seed * 5 + 3) % (sz * 8)) else (1,)
             for part in parts:
                 hs.append(H("C05.K3.nbit.sz%d.sb%d.p%d" % (sz, sb, part), "C05", src="harness/C05/k3_nbit.c", units=["hdf/src/hdfalloc.c"], models=["herr"],
-                            defs={"NTSZ": sz, "START_BIT": sb, "PART": part}, unwind=40, kind="K", timeout=900, extra_cc=["-I/verif/harness/C05"], field_sens=256,
-                            symbolic="3 values (all bit patterns)", bound="start bit and read partition enumerated; every bit length, sign_ext, fill_one (concrete loop)",
+                            defs={"NTSZ": sz, "START_BIT": sb, "PART": part, "BLSUB": 1 if (tier == "quick" and sz == 4) else 0}, unwind=40, kind="K", timeout=900, extra_cc=["-I/verif/harness/C05"], field_sens=256,
+                            symbolic="3 values (all bit patterns)", bound="start bit and read partition enumerated; every bit length (quick, 4-byte types: lengths at/next to byte boundaries and range ends), sign_ext, fill_one (concrete loop)",
                             group="C05.K3.nbit"))
     import random
     rng = random.Random(500 + seed)
